@@ -1,6 +1,6 @@
 (* C10 — Replicated notification log converges and never goes backwards.
    Only statements here; every proof is `exact <lemma from Proofs/NflogProofs.v>`. *)
-From AM Require Import Base.Prelude Model.Nflog Proofs.NflogProofs.
+From AM Require Import Base.Prelude Model.Nflog Proofs.NflogProofs Proofs.NflogConcProofs.
 
 (* An older entry never overwrites a newer one: across ANY operation (Log, Merge of any batch, Query, reload),
    a key that holds p afterwards holds an entry at least as new, and the same entry if the timestamp is unchanged;
@@ -84,6 +84,38 @@ Theorem c10_receiver_data_unchanged ret s now recv gkey f r d x :
   = Some (mkEntry gkey recv now (log_expiry ret now x) f r d).
 Proof. exact (log_then_query ret s now recv gkey f r d x). Qed.
 
+(* ---- concurrency: Log, GC and Merge are atomic under the log's lock, so a concurrent execution is a sequential
+   order at one instant; for these statements the order is irrelevant.  harness/nfrace runs the real operations
+   concurrently against the order-independent result (an implementation whose GC is not atomic w.r.t. Log fails). ---- *)
+
+(* GC and Log at one instant commute (stored entries have timestamp < expiry, as every logged entry has). *)
+Theorem c10_gc_log_commute ret s now recv gkey f r d x :
+  0 < ret -> wf_st s ->
+  fst (step ret (fst (step ret s now OGC)) now (OLog recv gkey f r d x)) =
+  fst (step ret (fst (step ret s now (OLog recv gkey f r d x))) now OGC).
+Proof. exact (gc_log_commute ret s now recv gkey f r d x). Qed.
+
+(* GC and the merge of one unexpired replicated entry commute when expiry is monotone in the timestamp for its key. *)
+Theorem c10_gc_merge_commute ret s now e :
+  now < e_exp e ->
+  (forall p, s !! skey e = Some p -> e_ts e <= e_ts p -> e_exp e <= e_exp p) ->
+  fst (merge1 now (fst (step ret s now OGC)) e) = fst (step ret (fst (merge1 now s e)) now OGC).
+Proof. exact (gc_merge1_commute ret s now e). Qed.
+
+(* Wherever a GC is linearised among any number of concurrent Log calls, the resulting state is the same. *)
+Theorem c10_gc_position_irrelevant ret now l1 l2 s :
+  0 < ret -> wf_st s -> Forall is_log l1 ->
+  run_at ret now s (l1 ++ OGC :: l2) = run_at ret now s (OGC :: l1 ++ l2).
+Proof. exact (gc_position_irrelevant ret now l1 l2 s). Qed.
+
+(* A notification logged concurrently with a GC is in the log afterwards (unexpired, stamped now or later),
+   whatever the interleaving of the Log calls and the GC. *)
+Theorem c10_logged_entry_survives_concurrent_gc ret now l1 l2 s recv gkey f r d x :
+  0 < ret -> wf_st s -> Forall is_log l1 -> Forall is_log l2 ->
+  In (OLog recv gkey f r d x) (l1 ++ l2) ->
+  exists e, run_at ret now s (l1 ++ OGC :: l2) !! skey_of gkey recv = Some e /\ now < e_exp e /\ now <= e_ts e.
+Proof. exact (logged_entry_survives_concurrent_gc ret now l1 l2 s recv gkey f r d x). Qed.
+
 (* ---- non-vacuity: the hypotheses are met by concrete, non-trivial histories ---- *)
 Definition ex_a := mkEntry "g" "r/webhook/0" 100 5000 [1] [] [("k", RStr "v")].
 Definition ex_b := mkEntry "g" "r/webhook/0" 200 6000 [1; 2] [] [].
@@ -99,6 +131,18 @@ Example c10_gc_history_nonvacuous :
   length (map_to_list (run_state 10000 ∅ h)) = 1%nat.
 Proof. vm_compute. repeat split; discriminate. Qed.
 
+Example c10_concurrent_gc_nonvacuous :
+  let s := run_state 1000 ∅ [(100, OLog "r/webhook/0" "g" [7] [] [] 0); (150, OLog "r/webhook/0" "h" [8] [] [] 0)] in
+  wf_st s /\ length (map_to_list (fst (step 1000 s 1200 OGC))) = 0%nat /\
+  length (map_to_list (run_at 1000 1200 s [OLog "r/webhook/0" "g" [7] [] [] 0; OGC])) = 1%nat.
+Proof.
+  split; [apply wf_st_check; vm_compute; reflexivity|vm_compute; split; reflexivity].
+Qed.
+
 Print Assumptions c10_never_backwards.
 Print Assumptions c10_convergence.
 Print Assumptions c10_newest_unexpired_with_gc.
+Print Assumptions c10_gc_log_commute.
+Print Assumptions c10_gc_merge_commute.
+Print Assumptions c10_gc_position_irrelevant.
+Print Assumptions c10_logged_entry_survives_concurrent_gc.
